@@ -105,8 +105,9 @@ CLAIMED.update({
         "text": "Escaping clauses decided structurally: per GFF3 column encoded-on-write iff decoded-in-every-read-view (caller sets), evaluated "
                 "attribute/seqid encode sets vs the GFF3 spec and vs reader delimiter constants, GTF escape set of the writer equals the set "
                 "the reader accepts after a backslash (match-pattern tables), values always quoted, owned record built from the lazy accessors, "
-                "line buffers reset before every appended line (incl. the blank-line skip loop), BED field scanner copies before it consumes.",
-        "note": "known finding F7 (seqid encoded, never decoded) by exact key; equality over arbitrary UTF-8 not decided",
+                "line buffers reset before every appended line (incl. the blank-line skip loop), BED field scanner copies before it consumes, "
+                "the GTF closing-quote scan knows the escape character, owned GFF comments are built from as_comment, BED read_record_N resets every reused field.",
+        "note": "known findings F7 (seqid encoded, never decoded) and F15 by exact key; genuine defects F27 (93f23c6) and F28 (c4084e9) found by R3/R4 and repaired; equality over arbitrary UTF-8 not decided",
         "technique": "static analysis: evaluated AsciiSet constants, HIR match-pattern sets, caller sets of encode/decode helpers",
         "design_ref": "§5 C18",
     },
